@@ -51,6 +51,35 @@ def run(report, p):
         "latest generation number + 1, and the same value is stored as the list's generation_number (which the chain writer emits as sequencenr)",
         2,
     )
+    # ------------------------------------------------------------------ R6.8
+    r8 = report.rule(
+        "R6.8",
+        "the manifest's name carries the folder's name as it is: the folder component of `NNNN_<folder>_<date>Z.mhl` is the final component of the root path itself, not a "
+        "character-wise rewritten, replaced, case-folded, re-encoded, stripped or truncated copy (such a `sanitiser` also hits legitimate names - a non-breaking or ideographic "
+        "space, a zero-width joiner, a soft hyphen are not `printable` - and the file is then named after another folder)",
+        1,
+    )
+    from .common import strip_string_rewrites
+
+    n8 = 0
+    for f8 in p.funcs.values():
+        if not f8.module.name.endswith("history"):
+            continue
+        for js in [n for n in walk_no_nested(f8.node) if isinstance(n, ast.JoinedStr) and any(isinstance(v, ast.FormattedValue) and norm(v.value) == "ascmhl_file_extension" for v in n.values)]:
+            for v in js.values:
+                if not isinstance(v, ast.FormattedValue):
+                    continue
+                for o in pr.origins(v.value, f8):
+                    full = pr.inline(pr.resolve(o, depth=3), depth=3)
+                    if not any(is_call(t, "get_root_path") or (t[0] == "attr" and t[2] == "asc_mhl_path") for t in subterms(full)):
+                        continue
+                    n8 += 1
+                    r8.instance(f8, v.value, f"{f8.name}: {show(full)[:70]}")
+                    inner, rewrites = strip_string_rewrites(full)
+                    r8.check(not rewrites, f8, v.value, f"the folder name in the manifest file name goes through {' / '.join(rewrites)} (`{show(full)[:80]}`): for a folder whose name contains a character the rewrite touches (U+00A0, U+3000, U+200D, U+00AD, U+2028 ... for an isprintable() filter) the manifest is named after a different string than the folder - numbering, chain and digests stay intact, so nothing reports it", construct=f"{f8.name}: folder name rewritten ({'/'.join(rewrites)})")
+    if n8 == 0:
+        raise AnalysisError("the folder-name field of the manifest file name was not found")
+
     wng = p.funcs.get(f"{HIST}.write_new_generation")
     if wng is None:
         raise AnalysisError("write_new_generation not found")
@@ -175,7 +204,7 @@ def run(report, p):
                     ok3, why = False, f"the name does not end with the manifest extension {ext!r}"
             # cross-check with concrete instantiations against the regex itself (constants only; no repository code is run)
             if ok3:
-                folders = ("root", "My Folder_2", "a.b", "ü", "Reel 03 (A-cam) #2", "R&D", "x+y", "50%", "a,b;c", "[1]", "{x}", "!$'~@^`=", "日本語", " lead", "trail ", ".hidden", "dots..", "a\tb", "_", "-", "0001_x")
+                folders = ("root", "My Folder_2", "a.b", "ü", "Reel 03 (A-cam) #2", "R&D", "x+y", "50%", "a,b;c", "[1]", "{x}", "!$'~@^`=", "日本語", " lead", "trail ", ".hidden", "dots..", "a\tb", "_", "-", "0001_x", "line\nbreak", "cr\rx", "sep\u2028x", "nbsp\u00a0x")
                 for idx in (1, 42, 9999, 10000, 123456):
                     for folder in folders:
                         nm = f"{idx:0{width}d}_{folder}_2020-01-16_091500Z"
